@@ -207,3 +207,22 @@ Proof.
     unfold need_b at 1 in H. rewrite Hs, Eo, Z.eqb_refl in H.
     assert (0 <= zsum (map (fun p => p_liq p + ctot (p_idx p) w (ms_bets x)) (bk_parts (ms_book x)))) by (apply zsum_map_nonneg; exact N). lia.
 Qed.
+
+(* C04: once every bet of a declared market is settled, what an unsettled participation gets back is its remaining liquidity plus the
+   stakes of the losing bets it backed minus the winnings of the winning bets it backed, and that is never negative *)
+Theorem payout_formula x p w : msett x -> bets_closed x -> bk_status (ms_book x) <> BK_ACTIVE ->
+  k_status (ms_mkt x) = MK_DECLARED -> k_winners (ms_mkt x) = [w] -> In p (bk_parts (ms_book x)) ->
+  p_liq p + p_profit p =
+    p_liq p + (stake_i (p_idx p) (bets_of x) - stake_io (p_idx p) w (bets_of x)) - pay_io (p_idx p) w (bets_of x) /\
+  0 <= p_liq p + p_profit p.
+Proof.
+  intros S C Hna Hd Hw Hp. pose proof (se_parts _ S p Hp) as [K1 K2 K3 K4].
+  destruct (se_decl _ S Hd) as (w' & Hw' & Hwin). rewrite Hw in Hw'. injection Hw' as <-.
+  assert (E : p_profit p = ctot (p_idx p) w (ms_bets x)).
+  { rewrite K4. unfold exp_profit, winner. rewrite Hd, Hw. cbn [hd]. change (MK_DECLARED =? MK_DECLARED) with true. cbv iota.
+    pose proof (attr_open (p_idx p) w (ms_bets x)) as A.
+    rewrite (zsum_map_zero (copen (p_idx p) w)) in A by (intros b Hb; unfold copen; rewrite (C Hna b Hb); reflexivity). lia. }
+  split.
+  - rewrite E, ctot_eq. change (map bo (ms_bets x)) with (bets_of x). lia.
+  - rewrite E. apply ctot_cover; [apply (se_cov _ S)|exact Hp|exact Hwin].
+Qed.
